@@ -401,13 +401,30 @@ def TwoInstancesChain(rng):
   return prog, ['F', 'Shop', 'Market'], ['fam_two_instances_chain']
 
 
+def ArgInHead(rng):
+  """The functor argument is reached only through a call written in the HEAD
+  of a rule (a functional value computed in the head)."""
+  x = Var('x')
+  A, B, T = _Distinct(['A', 'B', 'T'], rng, 1, 9)
+  MaxA = Pred('MaxA', [Rule([('logica_value', x, 'Max')], [Atom('A', [('col0', x)])], True)])
+  F = Pred('F', [Rule([('col0', x, ''), ('col1', Op('+', x, PCall('MaxA', [])), '')],
+                      [Atom('T', [('col0', x)])])])
+  G = Pred('G', [Rule([('col0', x, ''), ('logica_value', PCall('MaxA', []), 'Sum')],
+                      [Atom('T', [('col0', x)])], True)])
+  prog = Prog([A, B, T, MaxA, F, G])
+  prog['makes'] = [{'name': 'N', 'functor': 'F', 'args': [{'k': 'A', 'v': 'B'}]},
+                   {'name': 'M', 'functor': 'G', 'args': [{'k': 'A', 'v': 'B'}]}]
+  return prog, ['F', 'G', 'N', 'M'], ['fam_arg_in_head']
+
+
 C04_FAMILIES = [('made_with_own_rules', MadeWithOwnRules),
                 ('made_with_limit', MadeWithLimit),
                 ('make_order_chain', MakeOrderChain),
                 ('swap_bindings', SwapBindings),
                 ('clone_limited_twice', CloneLimitedTwice),
                 ('arg_inside_list', ArgInsideList),
-                ('two_instances_chain', TwoInstancesChain)]
+                ('two_instances_chain', TwoInstancesChain),
+                ('arg_in_head', ArgInHead)]
 
 
 # ---- C01 / C11: else-if chains, repeated functional calls --------------------------
